@@ -66,6 +66,7 @@ int main(void) {
             case 'l': printf(" l=%zd/%zd/%zd", zck_get_data_length(zck), zck_get_length(zck), zck_get_chunk_count(zck)); break;
             case 'k': if(src) printf(" k=%d", zck_copy_chunks(src, zck)); else printf(" k=nosrc"); break;
             case 'h': printf(" h=%d", src ? zck_find_matching_chunks(src, zck) : -1); break;
+            case 'x': printf(" x=%d", src ? zck_find_matching_chunks(zck, src) : -1); break;   /* the pairing the other way round */
             case 'q': printf(" q=%d", zck_close(zck)); break;
             case 'i': {
                 long cnt = 0; for(zckChunk *c = zck_get_first_chunk(zck); c; c = zck_get_next_chunk(c)) {
